@@ -244,8 +244,18 @@ fn needs_rebuild(lalrpop_file: &Path, rs_file: &Path) -> io::Result<bool> {
 
             let mut f = io::BufReader::new(rs_file);
 
-            f.read_line(&mut version_str)?;
-            f.read_line(&mut hash_str)?;
+            if let Err(e) = f
+                .read_line(&mut version_str)
+                .and_then(|_| f.read_line(&mut hash_str))
+            {
+                // Header lines that are not valid UTF-8 were not written by LALRPOP:
+                // rebuild instead of failing forever.
+                return if e.kind() == io::ErrorKind::InvalidData {
+                    Ok(true)
+                } else {
+                    Err(e)
+                };
+            }
 
             Ok(hash_str.trim() != hash_file(lalrpop_file)?
                 || version_str.trim() != LALRPOP_VERSION_HEADER)
